@@ -1104,7 +1104,8 @@ def run(chk, cases=None):
 # (PV.C09.SrcRun.ext09), is evaluated on the run's pad_variable cases and compared with what the implementation did
 # ------------------------------------------------------------------------------------------
 IMPORTS_SRC = IMPORTS + "From PV Require C09.SrcRun.\n"
-SRC_TIE_THEOREMS = ["c09_source_pad_variable_is_model", "c09_source_padding_buffers_is_model", "c09_source_pad_variable_rows"]
+SRC_TIE_THEOREMS = ["c09_source_pad_variable_is_model", "c09_source_padding_buffers_is_model", "c09_source_pad_variable_rows",
+                    "c09_source_pad_variable_refines_model", "c09_source_pad_check_is_check"]
 SRC_TIE_CAP = 1500
 
 
